@@ -25,6 +25,8 @@ def go_run(work, hists, mats):
         LAST_HANG = {"index": hg["i"], "history": hists[hg["i"]] if hg["i"] < len(hists) else None, "limit_s": hg["limit_s"],
                      "stacks": hg["stacks"][-6000:]}
         return False, gout, []
+    import vlib
+    vlib.note_crash(work.path("simout.jsonl"), [{"history": json.loads(json.dumps(h, default=lambda b: b.decode("latin1")))} for h in hists], rc, gout)
     if rc != 0 or not os.path.exists(work.path("simout.jsonl")):
         return False, gout, []
     outs = read_jsonl(work.path("simout.jsonl"))
